@@ -42,17 +42,18 @@ var modfile string
 type engineDef struct {
 	name  string
 	props []string
+	race  bool // the properties demand race freedom: part of the workers run a race-detector build (DESIGN.md §2.11)
 }
 
 var engines = []engineDef{
-	{"bsp", []string{"C01"}},
-	{"logbatch", []string{"C06"}},
-	{"metricsim", []string{"C02", "C08", "C12"}},
-	{"spanlin", []string{"C10"}},
-	{"otlpretry", []string{"C14"}},
-	{"lifecycle", []string{"C15"}},
-	{"globalsim", []string{"C16"}},
-	{"promsim", []string{"C18"}},
+	{"bsp", []string{"C01"}, false},
+	{"logbatch", []string{"C06"}, false},
+	{"metricsim", []string{"C02", "C08", "C12"}, false},
+	{"spanlin", []string{"C10"}, true},
+	{"otlpretry", []string{"C14"}, false},
+	{"lifecycle", []string{"C15"}, false},
+	{"globalsim", []string{"C16"}, true},
+	{"promsim", []string{"C18"}, true},
 }
 
 // packages instrumented by simgen (import paths). One overlay serves every engine.
@@ -248,17 +249,27 @@ func pruneCache(dir string, keep int, except string) {
 	}
 }
 
-func buildEngine(engine, ovDir, ovHash string) string {
-	bin := filepath.Join(root, ".cache/bin", engine+"."+ovHash+".test")
-	out, err := run(root, 20*time.Minute, "go", "test", "-c", "-tags", "verifsim", "-overlay", filepath.Join(ovDir, "overlay.json"),
-		"-o", bin, "./engines/"+engine)
+func buildEngine(engine, ovDir, ovHash string) string { return buildEngineX(engine, ovDir, ovHash, false) }
+
+// buildEngineX builds an engine's worker binary; with race set, the race-detector variant (which enters
+// its synctest bubbles through the runtime entry point, hence -checklinkname=0: simdrv/bubble_race.go).
+func buildEngineX(engine, ovDir, ovHash string, race bool) string {
+	suffix := ".test"
+	args := []string{"test", "-c", "-tags", "verifsim", "-overlay", filepath.Join(ovDir, "overlay.json")}
+	if race {
+		suffix = ".race.test"
+		args = append(args, "-race", "-ldflags=-checklinkname=0")
+	}
+	bin := filepath.Join(root, ".cache/bin", engine+"."+ovHash+suffix)
+	args = append(args, "-o", bin, "./engines/"+engine)
+	out, err := run(root, 30*time.Minute, "go", args...)
 	if err != nil {
-		die(2, "building engine %s failed (instrumented build of /repo's working tree): %v\n%s", engine, err, out)
+		die(2, "building engine %s failed (instrumented build of /repo's working tree, race=%v): %v\n%s", engine, race, err, out)
 	}
 	// prune old binaries of this engine
-	ents, _ := filepath.Glob(filepath.Join(root, ".cache/bin", engine+".*.test"))
+	ents, _ := filepath.Glob(filepath.Join(root, ".cache/bin", engine+".*"+suffix))
 	for _, e := range ents {
-		if e != bin {
+		if e != bin && strings.HasSuffix(e, ".race.test") == race {
 			os.Remove(e)
 		}
 	}
@@ -284,6 +295,10 @@ func worker(bin string, sp spec, gomaxprocs int, hardTimeout time.Duration) (str
 	cmd := exec.Command(bin, "-test.run", "^TestWorker$", "-test.timeout", "0", "-test.cpu", "1")
 	cmd.Dir = filepath.Join(root, "engines")
 	e := append(env(), "VERIF_SPEC="+string(b))
+	if strings.HasSuffix(bin, ".race.test") {
+		// the detector's reports go to a file next to the worker's output; the worker reads them back run by run
+		e = append(e, "GORACE=log_path="+sp.Out+".racelog exitcode=0 halt_on_error=0")
+	}
 	if gomaxprocs > 0 {
 		e = append(e, "GOMAXPROCS="+strconv.Itoa(gomaxprocs))
 		cmd.Args = []string{bin, "-test.run", "^TestWorker$", "-test.timeout", "0"}
@@ -342,6 +357,8 @@ type result struct {
 	Tape       [][]uint32        `json:"tape"`
 	Faults     map[string]int    `json:"faults"`
 	Probes     map[string]int    `json:"probes"`
+	Race       bool              `json:"race"`
+	Extra      map[string]string `json:"extra"`
 
 	// summary fields
 	Runs        int               `json:"runs"`
@@ -373,6 +390,7 @@ type replayFile struct {
 	Hash      string            `json:"hash"`
 	Shrunk    bool              `json:"shrunk"`
 	OrigLen   []int             `json:"orig_tape_len,omitempty"`
+	Race      bool              `json:"race_detector_build,omitempty"` // found by (and to be replayed with) the race-detector build
 }
 
 type knownFinding struct {
@@ -503,6 +521,9 @@ func main() {
 				continue
 			}
 			buildEngine(e.name, ovDir, ovHash)
+			if e.race {
+				buildEngineX(e.name, ovDir, ovHash, true)
+			}
 			fmt.Println("built", e.name)
 		}
 		return
@@ -522,6 +543,9 @@ func main() {
 		seed, _ := strconv.ParseInt(os.Args[3], 10, 64)
 		ovDir, ovHash := overlay()
 		bin := buildEngine(eng.name, ovDir, ovHash)
+		if os.Getenv("VERIF_RACE") != "" {
+			bin = buildEngineX(eng.name, ovDir, ovHash, true)
+		}
 		scratch := scratchDir()
 		defer os.RemoveAll(scratch)
 		out := filepath.Join(scratch, "seed.jsonl")
@@ -592,6 +616,10 @@ func explore(prop string, eng *engineDef, tier string) int {
 	t0 := time.Now()
 	ovDir, ovHash := overlay()
 	bin := buildEngine(eng.name, ovDir, ovHash)
+	binRace := ""
+	if eng.race {
+		binRace = buildEngineX(eng.name, ovDir, ovHash, true)
+	}
 	buildSec := time.Since(t0).Seconds()
 	known := loadKnown()
 	scratch := scratchDir()
@@ -605,6 +633,17 @@ func explore(prop string, eng *engineDef, tier string) int {
 	}
 	if v := int(envFloat("VERIF_WORKERS", 0)); v > 0 {
 		nworkers = v
+	}
+	// a quarter of the workers of an engine with race-freedom properties run the race-detector build
+	nrace := 0
+	if eng.race {
+		nrace = max(1, nworkers/4)
+	}
+	binOf := func(race bool) string {
+		if race && binRace != "" {
+			return binRace
+		}
+		return bin
 	}
 	base := seedBase()
 	var wg sync.WaitGroup
@@ -630,7 +669,7 @@ func explore(prop string, eng *engineDef, tier string) int {
 				}
 				out := filepath.Join(scratch, fmt.Sprintf("w%d-%d.jsonl", i, k))
 				sp := spec{Mode: "explore", SeedStart: seed, SeedStep: int64(nworkers), BudgetSec: left, Out: out, KeepOK: 1, Property: prop}
-				log, err := worker(bin, sp, 0, time.Duration(left*float64(time.Second))+5*time.Minute)
+				log, err := worker(binOf(i >= nworkers-nrace), sp, 0, time.Duration(left*float64(time.Second))+5*time.Minute)
 				outMu.Lock()
 				outs = append(outs, out)
 				errs = append(errs, err)
@@ -665,6 +704,7 @@ func explore(prop string, eng *engineDef, tier string) int {
 		count      int
 	}
 	groups := map[string]*group{}
+	raceRuns := 0
 	harnessTrouble := ""
 	for i := range outs {
 		runs, sum, err := readResults(outs[i])
@@ -674,6 +714,9 @@ func explore(prop string, eng *engineDef, tier string) int {
 		}
 		if sum != nil {
 			agg.runs += sum.Runs
+			if sum.Race {
+				raceRuns += sum.Runs
+			}
 			agg.steps += sum.StepsTotal
 			agg.simNs += sum.SimNs
 			agg.ops += int64(sum.Ops)
@@ -762,7 +805,8 @@ func explore(prop string, eng *engineDef, tier string) int {
 				msg = v.Msg
 			}
 		}
-		rf := &replayFile{Property: prop, Engine: eng.name, Seed: g.best.Seed, Class: g.class, Sig: g.sig, Violation: msg, Config: g.best.Config, Tape: g.best.Tape, History: g.best.History}
+		rf := &replayFile{Property: prop, Engine: eng.name, Seed: g.best.Seed, Class: g.class, Sig: g.sig, Violation: msg, Config: g.best.Config, Tape: g.best.Tape, History: g.best.History, Race: g.best.Race}
+		gbin := binOf(g.best.Race)
 		if os.Getenv("VERIF_LIST_GROUPS") != "" {
 			id := "-"
 			if kf != nil {
@@ -778,7 +822,7 @@ func explore(prop string, eng *engineDef, tier string) int {
 			// confirm it replays in a fresh process before believing the classification
 			raw := filepath.Join(scratch, "known-"+kf.ID+".json")
 			writeJSON(raw, rf)
-			ok, _, why := replayOnce(bin, raw, prop, g.class, g.sig, scratch)
+			ok, _, why := replayOnce(gbin, raw, prop, g.class, g.sig, scratch)
 			if !ok {
 				harnessTrouble = fmt.Sprintf("known finding %s (seed %d) did not reproduce on replay: %s", kf.ID, g.best.Seed, why)
 				continue
@@ -797,21 +841,22 @@ func explore(prop string, eng *engineDef, tier string) int {
 		writeJSON(raw, rf)
 		// shrink in a worker process
 		shr := filepath.Join(scratch, fmt.Sprintf("shrunk-%d.jsonl", nUnknown))
-		_, err := worker(bin, spec{Mode: "shrink", Replay: raw, Out: shr, BudgetSec: shrinkBudget, Property: prop, Class: g.class}, 0, time.Duration(shrinkBudget)*time.Second+3*time.Minute)
+		_, err := worker(gbin, spec{Mode: "shrink", Replay: raw, Out: shr, BudgetSec: shrinkBudget, Property: prop, Class: g.class}, 0, time.Duration(shrinkBudget)*time.Second+3*time.Minute)
 		final := rf
 		if err == nil {
 			if b, e := os.ReadFile(shr); e == nil {
 				var out replayFile
 				if json.Unmarshal(b, &out) == nil && out.Class == g.class {
 					final = &out
+					final.Race = g.best.Race
 				}
 			}
 		}
 		name := fmt.Sprintf("%s-%d-%s.json", prop, g.best.Seed, sanitize(g.class))
 		path := filepath.Join(root, "replays", name)
 		writeJSON(path, final)
-		ok1, h1, why := replayOnce(bin, path, prop, g.class, g.sig, scratch)
-		ok2, h2, _ := replayOnce(bin, path, prop, g.class, g.sig, scratch)
+		ok1, h1, why := replayOnce(gbin, path, prop, g.class, g.sig, scratch)
+		ok2, h2, _ := replayOnce(gbin, path, prop, g.class, g.sig, scratch)
 		if !ok1 || !ok2 || h1 != h2 {
 			harnessTrouble = fmt.Sprintf("violation %s (seed %d) did not replay identically in fresh processes (%v %v %s %s): %s", g.sig, g.best.Seed, ok1, ok2, h1, h2, why)
 			continue
@@ -828,6 +873,7 @@ func explore(prop string, eng *engineDef, tier string) int {
 	if agg.runs > 0 && float64(inconclusive) > 0.01*float64(agg.runs)+5 {
 		harnessTrouble = fmt.Sprintf("%d of %d runs exhausted the step budget (inconclusive)", inconclusive, agg.runs)
 	}
+	raceRunsLast = raceRuns
 	writeEvidence(prop, eng, tier, base, agg.runs, len(agg.sigs), agg.steps, agg.ops, agg.simNs, agg.outcomes, agg.faults, agg.probes,
 		len(agg.pairs), len(agg.points), agg.samples, wall, buildSec, nworkers, budget, agg.violRuns, nUnknown, lines, ovHash, knownSigs)
 	fmt.Printf("check %s %s: runs=%d distinct_schedules=%d steps=%d viol_runs=%d unknown_groups=%d outcomes=%v wall=%.1fs\n",
@@ -869,7 +915,27 @@ func writeJSON(path string, v any) {
 }
 
 // replayOnce replays a file in a fresh worker process and reports whether (class, sig) recurred.
+// replayOnce replays a file in a fresh worker process and reports whether the violation (class, sig)
+// shows again, with the run's hash. A data race is judged by the race detector, whose happens-before
+// relation also contains edges that the Go runtime adds at random in race builds (sync.Pool drops one
+// Put in four and synchronises unrelated pools that share a hash bucket - fmt alone is enough): the same
+// schedule can therefore hide a race in one process and show it in the next. The schedule itself
+// replays exactly (same hash); for the class data-race the replay is repeated a few times until the
+// detector shows the race again.
 func replayOnce(bin, path, prop, class, sig, scratch string) (bool, string, string) {
+	attempts := 1
+	if class == "data-race" {
+		attempts = 6
+	}
+	var ok bool
+	var h, why string
+	for i := 0; i < attempts && !ok; i++ {
+		ok, h, why = replayAttempt(bin, path, prop, class, sig, scratch)
+	}
+	return ok, h, why
+}
+
+func replayAttempt(bin, path, prop, class, sig, scratch string) (bool, string, string) {
 	out := filepath.Join(scratch, fmt.Sprintf("replay-%d.jsonl", time.Now().UnixNano()))
 	log, err := worker(bin, spec{Mode: "replay", Replay: path, Out: out}, 0, 5*time.Minute)
 	if err != nil {
@@ -903,16 +969,31 @@ func doReplay(prop string, eng *engineDef, path string) int {
 	if err := json.Unmarshal(b, &rf); err != nil {
 		die(2, "%s: %v", path, err)
 	}
-	out := filepath.Join(scratch, "replay.jsonl")
-	log, err := worker(bin, spec{Mode: "replay", Replay: path, Out: out}, 0, 10*time.Minute)
-	if err != nil {
-		die(2, "replay worker: %v\n%s", err, log)
+	if rf.Race {
+		bin = buildEngineX(eng.name, ovDir, ovHash, true)
 	}
-	runs, _, err := readResults(out)
-	if err != nil || len(runs) != 1 {
-		die(2, "replay output unreadable: %v", err)
+	var r result
+	for attempt := 0; attempt < 6; attempt++ {
+		out := filepath.Join(scratch, fmt.Sprintf("replay%d.jsonl", attempt))
+		log, err := worker(bin, spec{Mode: "replay", Replay: path, Out: out}, 0, 10*time.Minute)
+		if err != nil {
+			die(2, "replay worker: %v\n%s", err, log)
+		}
+		runs, _, err := readResults(out)
+		if err != nil || len(runs) != 1 {
+			die(2, "replay output unreadable: %v", err)
+		}
+		r = runs[0]
+		shows := false
+		for _, v := range r.Violations {
+			if v.Property == prop && v.Class == rf.Class {
+				shows = true
+			}
+		}
+		if shows || rf.Class != "data-race" {
+			break // (only the race detector's verdict can differ between two replays of one schedule: see replayOnce)
+		}
 	}
-	r := runs[0]
 	fmt.Printf("replay of %s (engine %s, seed %d): outcome=%s hash=%s recorded_hash=%s\n", path, eng.name, rf.Seed, r.Outcome, r.Hash, rf.Hash)
 	for _, l := range r.History {
 		fmt.Println("  ", l)
@@ -935,6 +1016,8 @@ func doReplay(prop string, eng *engineDef, path string) int {
 	}
 	return status
 }
+
+var raceRunsLast int
 
 func writeEvidence(prop string, eng *engineDef, tier string, seed int64, runs, distinct int, steps, ops, simNs int64,
 	outcomes, faults, probes map[string]int, pairs, points int, samples []result, wall, buildSec float64, nworkers int, budget float64,
@@ -988,6 +1071,10 @@ func writeEvidence(prop string, eng *engineDef, tier string, seed int64, runs, d
 		"unlisted_violation_groups":   unknownGroups,
 		"report_lines":                lines,
 		"known_finding_signatures":    knownSigs,
+	}
+	if eng.race {
+		cov["race_detector_runs"] = raceRunsLast
+		cov["race_detector_rule"] = "runs of the race-detector build of the engine (a quarter of the workers): same simulator and oracles, plus the Go race detector as an oracle over the run, with the simulator's own synchronisation hidden from it so that accesses the schedule merely serialised are reported (DESIGN.md §2.11)"
 	}
 	ev := map[string]any{
 		"property_id": prop,
@@ -1073,13 +1160,28 @@ func selftestDeterminism(which []string) int {
 			j.out = filepath.Join(scratch, fmt.Sprintf("%s-det-%d.jsonl", e.name, i))
 			jobs = append(jobs, j)
 		}
+		// the race-detector build must take exactly the same schedules (same per-seed hashes): two more
+		// processes run it
+		raceFrom := len(jobs)
+		binRace := ""
+		if e.race {
+			binRace = buildEngineX(e.name, ovDir, ovHash, true)
+			for i, j := range []job{{4, s0, 1, nSeeds / 2, ""}, {16, s0 + n - 1, -1, nSeeds / 2, ""}} {
+				j.out = filepath.Join(scratch, fmt.Sprintf("%s-det-race-%d.jsonl", e.name, i))
+				jobs = append(jobs, j)
+			}
+		}
 		var wg sync.WaitGroup
 		errs := make([]error, len(jobs))
 		for i, j := range jobs {
 			wg.Add(1)
 			go func(i int, j job) {
 				defer wg.Done()
-				_, errs[i] = worker(bin, spec{Mode: "hash", SeedStart: j.start, SeedStep: j.step, MaxRuns: j.n, Out: j.out}, j.procs, 20*time.Minute)
+				b := bin
+				if i >= raceFrom {
+					b = binRace
+				}
+				_, errs[i] = worker(b, spec{Mode: "hash", SeedStart: j.start, SeedStep: j.step, MaxRuns: j.n, Out: j.out}, j.procs, 20*time.Minute)
 			}(i, j)
 		}
 		wg.Wait()
@@ -1105,7 +1207,7 @@ func selftestDeterminism(which []string) int {
 				}
 			}
 		}
-		fmt.Printf("determinism %s: %d seeds x %d processes (GOMAXPROCS 1,4,16; forward, reverse, offset and strided seed orders): %d mismatches\n", e.name, nSeeds, len(jobs), bad)
+		fmt.Printf("determinism %s: %d seeds x %d processes (GOMAXPROCS 1,4,16; forward, reverse, offset and strided seed orders; %d of them race-detector builds): %d mismatches\n", e.name, nSeeds, len(jobs), len(jobs)-raceFrom, bad)
 		if bad > 0 {
 			status = 2
 		}
